@@ -122,21 +122,7 @@ def run(ctx):
         ok = txt == "⟨proc_macro2::Ident⟩ = ⟨alt __errors . handle ( ⟨syn::path::Path⟩ ( __fwd_attrs ) ) | :: darling :: export :: Some ( __fwd_attrs ) ⟩ ;"
         ctx.ob("C08.H.forward-populator", f.key, "attrs = Some(__fwd_attrs) | handle(with(__fwd_attrs))", ok, txt)
     # the buffers that live across attributes (__flatten, __fwd_attrs) are only ever pushed to by the per-list / per-attribute code
-    for key in ("darling_core::codegen::variant_data::FieldsGen::<'a>::core_loop", EXT, common.TOK % "attrs_field::MatchArms<'_>", common.TOK % "field::MatchArm<'_>"):
-        g = ctx.fn(key)
-        if not g:
-            continue
-        T = tpl.Templates(g)
-        for s in T.by_stream:
-            toks = T.by_stream[s]
-            for i, tk in enumerate(toks):
-                if tk.kind == "ident" and tk.text in ("__flatten", "__fwd_attrs"):
-                    nxt = [(x.kind, x.text) for x in toks[i + 1:i + 3]]
-                    prev = toks[i - 1] if i else None
-                    is_push = nxt[:2] == [("punct", "."), ("ident", "push")]
-                    is_read_arg = prev is not None and prev.kind == "punct" and prev.text == "&"
-                    ctx.ob("C08.H.cross-attribute-buffers-only-pushed", g.key, "%s in template" % tk.text, is_push or is_read_arg,
-                           "inside the per-attribute / per-list code the buffer may only be `.push(..)`-ed; found `%s %s`: reassigning or re-declaring it drops items read from earlier attributes" % (tk.text, " ".join(str(x[1]) for x in nxt)))
+    common.buffers_only_pushed(ctx, "C08.H.cross-attribute-buffers-only-pushed")
     # ------------------------------------------------------------ parse_attribute_to_meta_list
     f = ctx.fn("darling_core::util::parse_attribute::parse_attribute_to_meta_list")
     if f:
